@@ -49,7 +49,11 @@ RULE = ("pipe: one case = one scenario (N<=3 sources x M<=4 destinations, proces
         "scenario is from the malformed stream (empty / unknown / swapped / repeated acks, failing Write / Ack / DLQ calls, wrong "
         "processor result shapes). A third of the well-formed scenarios with >= 2 destinations are from the batching family: one destination "
         "rejects every record (all settled through the DLQ), the others buffer writes and acknowledge only when their batch is full or at "
-        "Stop(lastPosition) (size based batching), natural end or graceful stop at a random instant — the acks arrive during the node's drain. Non-trivial = a record reached a destination and a source was acked and at least one of: DLQ write, "
+        "Stop(lastPosition) (size based batching), natural end or graceful stop at a random instant — the acks arrive during the node's drain. A sixth of the well-formed scenarios are from the refused-result family: a parallel processor (2-4 workers, at source / pipeline / "
+        "destination level) returns for one early record a result the ProcessorNode refuses (changed position, MultiRecord, zero / two "
+        "results, nil), tolerant DLQ, later records follow. Graceful stops are issued without reason (user stop) or with the non-nil "
+        "shutdown reason (StopAll); the fake source refuses acks after its Teardown (trace token S:s:i:t = violation) and every fake "
+        "processor stamps the record it returns, the W token carries the stamps and must show every processor on the way. Non-trivial = a record reached a destination and a source was acked and at least one of: DLQ write, "
         "filter, >1 destination, >1 source, batch ack, early stop. condmerge: (match pattern, plugin reply kinds) with full / short / "
         "long / empty replies and condition errors; non-trivial = kept and pass-through records both present. distinct = distinct case lines")
 
